@@ -206,7 +206,11 @@ func (w *rworld) identitiesAtS() int {
 }
 
 func (w *rworld) tabCount(p int) int {
-	return len(w.S.VerifConnList(w.peers[p].si.GetID()))
+	l, ok := connListBounded(w.S, w.peers[p].si.GetID())
+	if !ok {
+		return 1 << 20 // unknown: the router does not answer
+	}
+	return len(l)
 }
 
 const settleDeadline = 5 * time.Second
@@ -486,7 +490,9 @@ func (w *rworld) snapshot(res int, skip, timeout bool) (string, map[string]inter
 	go func() {
 		defer close(got)
 		for p := range w.peers {
-			tab[p] = w.tabCount(p)
+			if n := w.tabCount(p); n < 1<<20 {
+				tab[p] = n
+			}
 		}
 	}()
 	select {
@@ -563,6 +569,9 @@ func (w *rworld) cleanup() {
 }
 
 func runReal(in input) lib.Case {
+	if wedgedKinds["real"] >= 3 {
+		return lib.Case{Discard: true}
+	}
 	w, err := newRworld(in.TCP, in.NP, in.NH, in.HSend)
 	if err != nil {
 		if w != nil {
@@ -577,6 +586,9 @@ func runReal(in input) lib.Case {
 	for i := range in.Ops {
 		o := &in.Ops[i]
 		res, skip, to := w.exec(o)
+		if isWedged(w.S) {
+			to = true
+		}
 		s, h := w.snapshot(res, skip, to)
 		ops = append(ops, o.coq())
 		snaps = append(snaps, s)
@@ -587,6 +599,7 @@ func runReal(in input) lib.Case {
 		}
 		if to {
 			w.abandoned = true
+			wedgedKinds["real"]++
 			break
 		}
 	}
